@@ -132,7 +132,7 @@ func isProcessExit(name string) bool {
 // noExitRule: no process-terminating call and no explicit panic is reachable from the entries.
 func noExitRule(c *Ctx, entries []string) {
 	const R = "no-process-exit"
-	c.rule(R, "no call-graph path (VTA over a CHA seed; interface calls resolved to the implementations that flow there) from a public entry point reaches os.Exit, log.Fatal*/Panic*, logrus Fatal*/Panic*, runtime.Goexit, or an explicit panic in module code")
+	c.rule(R, "no call-graph path (VTA over a CHA seed; interface calls resolved to the implementations that flow there) from a public entry point reaches os.Exit, log.Fatal*/Panic*, logrus Fatal*/Panic*, runtime.Goexit, an explicit panic in module code, or a third-party Must* function (panics where its sibling returns an error) applied to a non-constant operand")
 	roots := c.rootsOf(R, entries)
 	pred, order := c.reachSSA(roots)
 	found := 0
@@ -152,6 +152,19 @@ func noExitRule(c *Ctx, entries []string) {
 						if isProcessExit(name) {
 							found++
 							c.bad(R, fnName(f)+"#"+shortCallee(name), c.P.Pos(x.Pos()), fmt.Sprintf("%s terminates the process; reachable from a public entry point via %s", name, chainTo(pred, f)))
+						} else if sc := x.Common().StaticCallee(); sc != nil && strings.HasPrefix(sc.Name(), "Must") && (sc.Pkg == nil || !strings.HasPrefix(sc.Pkg.Pkg.Path(), modPath)) {
+							// the library convention: MustX panics where X returns an error; with an operand
+							// that is not a constant the panic is the caller's input away
+							allConst := true
+							for _, a := range x.Common().Args {
+								if _, isC := a.(*ssa.Const); !isC {
+									allConst = false
+								}
+							}
+							if !allConst {
+								found++
+								c.bad(R, fnName(f)+"#"+shortCallee(name), c.P.Pos(x.Pos()), fmt.Sprintf("%s panics when its (non-constant) operand is not well-formed; reachable from a public entry point via %s", name, chainTo(pred, f)))
+							}
 						}
 					}
 				}
@@ -236,7 +249,6 @@ var syncTypes = map[string]bool{
 	"sync.Mutex": true, "sync.RWMutex": true, "sync.Map": true, "sync.Once": true, "sync.WaitGroup": true, "sync.Pool": true,
 	"sync/atomic.Value": true, "sync/atomic.Int32": true, "sync/atomic.Int64": true, "sync/atomic.Bool": true, "sync/atomic.Pointer": true,
 }
-
 
 // mutexFor is the variable ↔ mutex association inferred by stateDiscipline on the analysed tree
 // (a mutex held at some access of the variable guards it).
